@@ -396,6 +396,36 @@ func c20Transparency(c C20Case, cx *h.Ctx) *h.Failure {
 	if apienum.Repr(reflect.ValueOf(g.Envelope())) != apienum.Repr(reflect.ValueOf(gp.Envelope())) {
 		return diff("Envelope", g.Envelope(), gp.Envelope())
 	}
+	// structure-preserving operations on the Z/M-carrying versions: the inserted empties change neither the
+	// coordinate type of the result nor any position of it
+	for _, lct := range []int{1, 3} {
+		gl, gpl := c16TagWith(forceCT(base, lct), false), c16TagWith(forceCT(plus, lct), false)
+		// tags are assigned in traversal order: give both the same tags by tagging the base and re-inserting
+		gpl = c20Plus(gl, func() []gm.G {
+			var es []gm.G
+			for _, e := range c.Empties {
+				es = append(es, forceCT(e, lct))
+			}
+			return es
+		}(), c.At, c.Deep)
+		gpl = forceCT(gpl, lct) // the inserted typed empties take the coordinate type of their host (forceCT keeps the tags)
+		f := func(p geom.XY) geom.XY { return geom.XY{X: p.X + 3, Y: 2 * p.Y} }
+		for _, op := range []struct {
+			name string
+			fn   func(g geom.Geometry) geom.Geometry
+		}{{"TransformXY", func(g geom.Geometry) geom.Geometry { return g.TransformXY(f) }},
+			{"SnapToGrid(0)", func(g geom.Geometry) geom.Geometry { return g.SnapToGrid(0) }},
+			{"Reverse", func(g geom.Geometry) geom.Geometry { return g.Reverse() }},
+			{"ForceCW", func(g geom.Geometry) geom.Geometry { return g.ForceCW() }}} {
+			r1, r2 := op.fn(gl.ToGeom()), op.fn(gpl.ToGeom())
+			if r2.CoordinatesType() != geom.CoordinatesType(lct) || r1.CoordinatesType() != geom.CoordinatesType(lct) {
+				return diff(op.name+" coordinate type", r1.CoordinatesType(), r2.CoordinatesType())
+			}
+			if !multisetEq(positions(gm.FromGeom(r1)), positions(gm.FromGeom(r2))) {
+				return diff(op.name+" positions", clip(r1.AsText(), 200), clip(r2.AsText(), 200))
+			}
+		}
+	}
 	// the envelope as carried by the TWKB bounding-box header
 	if t1, e1 := geom.MarshalTWKB(g, 0, geom.TWKBBoundingBoxHeader()); e1 == nil {
 		t2, e2 := geom.MarshalTWKB(gp, 0, geom.TWKBBoundingBoxHeader())
